@@ -35,6 +35,13 @@ macro_rules! dense_be {
                     other => panic!("harness: unknown constructor {}", other),
                 }
             }
+            fn roundtrip(m: &DenseMatrix<$t>, fmt: &str) -> Option<Result<DenseMatrix<$t>, String>> {
+                Some(if fmt == "serde_json" {
+                    serde_json::to_string(m).map_err(|e| e.to_string()).and_then(|s| serde_json::from_str(&s).map_err(|e| e.to_string()))
+                } else {
+                    bincode::serialize(m).map_err(|e| e.to_string()).and_then(|b| bincode::deserialize(&b).map_err(|e| e.to_string()))
+                })
+            }
             fn iter_mode(m: &DenseMatrix<$t>, mode: &str, k: usize) -> Option<Vec<f64>> {
                 let f = |x: $t| x as f64;
                 Some(match mode {
